@@ -31,6 +31,7 @@ import DK.Props.C20
 import DK.Props.TreeGrad
 import DK.Props.Link
 import DK.Lemmas.Bridge
+import DK.Lemmas.BridgeVec
 /-!
 # All property modules together (built by setup_cmd; also checks that the helper-lemma layers do not clash)
 -/
